@@ -20,6 +20,7 @@ edge returning Err (the check the property's example edit deletes). Value-origin
 client verifier accepts [primary], the server verifier [primary, alternate] (or [primary]), that each
 generated certificate names exactly the name it is registered under for SNI, that the pinned-dial
 verifier uses [own primary name], and that every dial passes the endpoint's primary name as SNI.
+One layer out: nothing writes a field of a rustls config after the builder chain and the TLS code keeps no stateful static, so no session state crosses listeners.
 """
 TRUSTED = ["rustls SNI certificate selection (ResolvesServerCertUsingSni)", "webpki subject-name matching", "rcgen puts the given names into SubjectAltName"]
 NOT_DECIDED = ["adversarial hello/certificate combinations as inputs to rustls", "rustls/webpki name matching internals"]
